@@ -238,7 +238,7 @@ func equalArms(c *Ctx, rule string, totality bool) {
 					c.Check(okIdx, rule, fnName(eq), key, P.Pos(ar.aAssert.Pos()), fmt.Sprintf("element-wise comparison on the same index=%v; path: %s", okIdx, p.String()))
 				default:
 					// scalar arm, same kind: the result must be an == of the same field of both sides (or false)
-					ok := rb == 0 || sameFieldEq(r.V, ar.aAssert, ar.bAsserts)
+					ok := rb == 0 || sameFieldEq(r.V, ar.aAssert, ar.bAsserts) || sameFieldEqRV(r, ar.aAssert, ar.bAsserts, 0)
 					c.Check(ok, rule, fnName(eq), key, P.Pos(ar.aAssert.Pos()), "returns "+Expr(r.V))
 				}
 			}
@@ -466,4 +466,80 @@ func equalFuncOverLists(v ssa.Value, eq *ssa.Function, sideOf func(ssa.Value) st
 	}
 	sa, sb := side(call.Call.Args[0]), side(call.Call.Args[1])
 	return strings.HasPrefix(sa, "a") && strings.HasPrefix(sb, "b")
+}
+
+
+// sameFieldEqRV is sameFieldEq for a comparison made inside an inlined activation (a comparison closure
+// handed to a generic helper that does the assertion): the operands' roots are followed through the
+// frames - closure parameters to what the helper passed, captured variables to the cell's single store.
+func sameFieldEqRV(rv RV, aT *ssa.TypeAssert, bTs []*ssa.TypeAssert, d int) bool {
+	if d > 6 {
+		return false
+	}
+	root := func(v ssa.Value) ssa.Value {
+		r := RV{rv.F, v}
+		for i := 0; i < 8; i++ {
+			r = frameResolve(r)
+			switch x := r.V.(type) {
+			case *ssa.Alloc:
+				if sv := singleStore(x); sv != nil {
+					r = RV{r.F, sv}
+					continue
+				}
+			case *ssa.UnOp:
+				if al, ok := x.X.(*ssa.Alloc); ok && x.Op == token.MUL {
+					if sv := singleStore(al); sv != nil {
+						r = RV{r.F, sv}
+						continue
+					}
+				}
+			}
+			break
+		}
+		return r.V
+	}
+	switch x := rv.V.(type) {
+	case *ssa.Phi:
+		for _, e := range x.Edges {
+			if cb, ok := constBool(e); ok && !cb {
+				continue
+			}
+			if !sameFieldEqRV(RV{rv.F, e}, aT, bTs, d+1) {
+				return false
+			}
+		}
+		return len(x.Edges) > 0
+	case *ssa.Call:
+		switch calleeName(&x.Call) {
+		case "bytes.Equal", "slices.Equal":
+			if len(x.Call.Args) == 2 {
+				return sameFieldEqRV(RV{rv.F, &ssa.BinOp{Op: token.EQL, X: x.Call.Args[0], Y: x.Call.Args[1]}}, aT, bTs, d+1)
+			}
+		}
+		return false
+	case *ssa.BinOp:
+		if x.Op != token.EQL {
+			return false
+		}
+		pa, ra := fieldPath(x.X)
+		pb, rb := fieldPath(x.Y)
+		if pa == "" || pa != pb || ra == nil || rb == nil {
+			return false
+		}
+		ra, rb = root(ra), root(rb)
+		isA := func(r ssa.Value) bool {
+			ex, ok := r.(*ssa.Extract)
+			return (ok && ex.Tuple == ssa.Value(aT)) || r == ssa.Value(aT)
+		}
+		isB := func(r ssa.Value) bool {
+			for _, bt := range bTs {
+				if ex, ok := r.(*ssa.Extract); (ok && ex.Tuple == ssa.Value(bt)) || r == ssa.Value(bt) {
+					return true
+				}
+			}
+			return false
+		}
+		return (isA(ra) && isB(rb)) || (isB(ra) && isA(rb))
+	}
+	return false
 }
